@@ -61,14 +61,12 @@ def claimable1 (s : State) (e : Env) (a : Nat) : Res Nat :=
       else if sc.initial = MAX_PERCENTAGE then pure total
       else bsub (total * unlockedPct1 e.round sc / MAX_PERCENTAGE) claimed "claimable - claimed"
 
-/-- v1 `set_unlock_schedule` (token_release.rs:38-84) with the D5 repair (factors bounded
-    before the `u64` multiplication). -/
+/-- v1 `set_unlock_schedule` (token_release.rs:38-84) with the D5 repair (checked
+    arithmetic: the exact, unbounded sum must be 100 %). -/
 def setSchedule1 (s : State) (e : Env) (start initial times pct period : Nat) : Res State := do
   req (e.round < s.cfg.conf || s.sched1.isNone) "Can't change the unlock schedule"
   req (start ≥ e.round) "Wrong claim start round"
   req (period > 0 || initial == MAX_PERCENTAGE) "Wrong vesting release recurrency"
-  req (initial ≤ MAX_PERCENTAGE && times ≤ MAX_PERCENTAGE && pct ≤ MAX_PERCENTAGE)
-    "Unlock percentage is not 100%"
   req (initial + times * pct == MAX_PERCENTAGE) "Unlock percentage is not 100%"
   pure { s with sched1 := some ⟨start, initial, times, pct, period⟩ }
 
